@@ -334,6 +334,29 @@ def c03d(F, R):
                     return r if e["op"] == "Eq" else not r
                 if k == "Block" and not e.get("stmts") and e.get("expr"):
                     return ev(e["expr"], env)
+                if k == "Block" and e.get("expr"):
+                    env2 = dict(env)
+                    for st in e["stmts"]:
+                        if st.get("k") == "Let" and st["pat"].get("k") == "PBinding" and st.get("init") is not None:
+                            env2["$" + st["pat"]["name"]] = ev(st["init"], env2)
+                        else:
+                            raise Unx("statement in the branch predicate")
+                    return ev(e["expr"], env2)
+                if k == "Path" and e.get("res_kind") == "Local" and ("$" + e["res"]) in env:
+                    return env["$" + e["res"]]
+                if k == "Match":
+                    sc = atom(e["scrut"])
+                    if sc[0] != "fld" or sc[1] not in env:
+                        raise Unx("match scrutinee")
+                    v_ = env[sc[1]]
+                    for a_ in e["arms"]:
+                        vs = {short(x_) for k_, x_ in pat_variants(a_["pat"]) if k_ == "path" and x_}
+                        wild = a_["pat"].get("k") in ("PWild", "PBinding")
+                        if v_ in vs or wild:
+                            if a_.get("guard") is not None and not ev(a_["guard"], env):
+                                continue
+                            return ev(a_["body"], env)
+                    raise Unx("no arm")
                 raise Unx(ekey(e0)[:60])
             always = lambda i, r1, r2: (r1 == r2 and i in ("Beq", "Bge", "Bgeu")) or (i == "Bgeu" and r2 == "x0")
             bad = []
@@ -2290,6 +2313,215 @@ def c01o(F, R):
         else:
             fld = sorted({w for w, _ in writes})
             R.bad(f"{key}|writes|{'+'.join(fld)}", f"CfgNode::{name} is a query, yet it writes the node's field(s) {fld}: an answer stored on first use is not withdrawn when the facts it was derived from change (the value analysis evaluates a node optimistically before its back edges; a constant seen then can disappear in the next sweep)", loc(writes[0][1]))
+
+
+def _rv32(op, x, y):
+    """RV32IM result of MathOp `op` on two 32-bit values given as signed Python ints (ISA manual vol. I, RV32I + M)"""
+    M = 1 << 32
+    u = lambda v: v % M
+    sg = lambda v: (v % M) - M if (v % M) >= (1 << 31) else (v % M)
+    if op == "Add": return sg(x + y)
+    if op == "Sub": return sg(x - y)
+    if op == "And": return sg(u(x) & u(y))
+    if op == "Or": return sg(u(x) | u(y))
+    if op == "Xor": return sg(u(x) ^ u(y))
+    if op == "Sll": return sg(u(x) << (u(y) & 31))
+    if op == "Srl": return sg(u(x) >> (u(y) & 31))
+    if op == "Sra": return sg(sg(x) >> (u(y) & 31))
+    if op == "Slt": return 1 if sg(x) < sg(y) else 0
+    if op == "Sltu": return 1 if u(x) < u(y) else 0
+    if op == "Mul": return sg(sg(x) * sg(y))
+    if op == "Mulh": return sg((sg(x) * sg(y)) >> 32)
+    if op == "Mulhsu": return sg((sg(x) * u(y)) >> 32)
+    if op == "Mulhu": return sg((u(x) * u(y)) >> 32)
+    if op == "Div":
+        if sg(y) == 0: return -1
+        if sg(x) == -(1 << 31) and sg(y) == -1: return sg(x)
+        q = abs(sg(x)) // abs(sg(y))
+        return sg(q if (sg(x) < 0) == (sg(y) < 0) else -q)
+    if op == "Divu": return sg(M - 1) if u(y) == 0 else sg(u(x) // u(y))
+    if op == "Rem":
+        if sg(y) == 0: return sg(x)
+        if sg(x) == -(1 << 31) and sg(y) == -1: return 0
+        r = abs(sg(x)) % abs(sg(y))
+        return sg(r if sg(x) >= 0 else -r)
+    if op == "Remu": return sg(x) if u(y) == 0 else sg(u(x) % u(y))
+    return None
+
+
+_GRID = [0, 1, -1, 2, -2, 3, 31, 32, 33, 0x7FFF, -0x8000, (1 << 31) - 1, -(1 << 31), -(1 << 31) + 1, 12345678]
+
+
+@rule("C08", "R4.folds-with-an-unknown-operand-are-laws", floor=3)
+@rule("C01", "C01.p.folds-with-an-unknown-operand-are-laws", floor=3)
+def c01p(F, R):
+    """the folding rule produces a value only from operands it knows; an arm that claims a constant while one operand is unknown (`0 op y = 0`) states an algebraic law, and the law must hold in RV32IM for every operator the arm's guard admits and every value of the unknown operand - checked against the manual's definition of each operator on the values where the definitions have their special cases (zero divisor, MIN / -1, shift amounts around 32) - `div rd, x0, rs` is -1 when rs is 0"""
+    rp = [q for q in F.fns if q.endswith("analysis::available::rule_perform_math_ops")]
+    if not rp:
+        raise Anchor("rule_perform_math_ops not found")
+    f = F.fn(rp[0])
+    body = f["hir"]["value"]
+    MATHOP = "riscv_analysis::cfg::ops::MathOp"
+    ms = [m for m in find_matches(body) if peel(m["scrut"]).get("k") == "Tup" and len(peel(m["scrut"])["elems"]) == 2]
+    if not ms:
+        R.bad("shape", "UNEXTRACTABLE: no match on the pair of operand values in rule_perform_math_ops", f["sp"])
+        return
+    m = ms[0]
+
+    def side(p):
+        """('lit', c) | ('var',) | ('ors',) | ('wild',)"""
+        if p.get("k") in ("PWild", "PBinding"):
+            return ("wild",)
+        vs = [short(x.get("res") or (peel(x.get("e") or {}).get("res") or "")) for x in walk(p) if x.get("res") or (x.get("k") == "PExpr" and peel(x.get("e") or {}).get("res"))]
+        vs = [v for v in vs if v]
+        if "None" in vs:
+            return ("wild",)
+        if "Constant" in vs:
+            lits = [lit_value(peel(x.get("e") or {})) for x in walk(p) if x.get("k") in ("PExpr", "PLit")]
+            lits = [l for l in lits if isinstance(l, int) and not isinstance(l, bool)]
+            return ("lit", lits[0]) if lits else ("var",)
+        if vs and vs != ["Some"]:
+            return ("ors",)
+        return ("wild",)
+
+    def pred_set(method_path):
+        g = F.fns.get(method_path)
+        if not g or "hir" not in g:
+            return None
+        out = set()
+        for mm in find_matches(g["hir"]["value"]):
+            if ekey(mm["scrut"]).lstrip("*&") != "self":
+                continue
+            for a in mm["arms"]:
+                if lit_value(a["body"]) is True:
+                    out |= {short(v) for k_, v in pat_variants(a["pat"]) if k_ == "path" and v and v.startswith(MATHOP + "::")}
+        return out
+
+    n_arm = 0
+    for a in m["arms"]:
+        pat = a["pat"]
+        if pat.get("k") != "PTuple" or len(pat["pats"]) != 2:
+            continue
+        n_arm += 1
+        sides = [side(pat["pats"][0]), side(pat["pats"][1])]
+        b = peel(a["body"])
+        while b.get("k") == "Block" and not b.get("stmts") and b.get("expr") is not None:
+            b = peel(b["expr"])
+        is_none = b.get("k") == "Path" and short(b.get("res") or "") == "None"
+        key = f"arm#{n_arm}|{sides[0][0]},{sides[1][0]}"
+        if is_none:
+            R.ok(key, detail="no claim", trivial=True)
+            continue
+        if "wild" not in (sides[0][0], sides[1][0]):
+            R.ok(key, detail="both operands known")
+            continue
+        # a claim with an unknown operand
+        known = sides[0] if sides[1][0] == "wild" else sides[1]
+        left_known = sides[1][0] == "wild"
+        claim = None
+        if b.get("k") == "Call" and short(callee_of(b) or "") == "Some":
+            inner = peel(b["args"][0])
+            if inner.get("k") == "Call" and short(callee_of(inner) or "") == "Constant":
+                lv = lit_value(inner["args"][0])
+                claim = lv if isinstance(lv, int) and not isinstance(lv, bool) else None
+        if known[0] != "lit" or claim is None or sides[0][0] == sides[1][0]:
+            R.bad(key, f"UNEXTRACTABLE: an arm of the folding rule claims `{ekey(b)[:50]}` although an operand is unknown (pattern {sides}); only the form `(Some(Constant(c)), _) if <operator test> => Some(Constant(k))` is understood", loc(a))
+            continue
+        ops = None
+        g = a.get("guard")
+        if g is not None:
+            for c in walk(g, pats=False):
+                if c.get("k") == "Closure":
+                    for mc in walk(c["body"], pats=False):
+                        if mc.get("k") == "MethodCall" and (callee_of(mc) or "").startswith(MATHOP + "::"):
+                            ops = pred_set(callee_of(mc))
+            if ops is None:
+                for mm in find_matches(g):
+                    vs = set()
+                    for a2 in mm["arms"]:
+                        if lit_value(a2["body"]) is True:
+                            vs |= {short(v) for k_, v in pat_variants(a2["pat"]) if k_ == "path" and v and v.startswith(MATHOP + "::")}
+                    if vs:
+                        ops = vs
+        if not ops:
+            R.bad(key, "UNEXTRACTABLE: the guard of a fold with an unknown operand does not name the operators it admits (or there is no guard: every operator is admitted)", loc(a))
+            continue
+        bad = []
+        for op in sorted(ops):
+            for y in _GRID:
+                r = _rv32(op, known[1], y) if left_known else _rv32(op, y, known[1])
+                if r is None:
+                    bad.append((op, y, "?"))
+                    break
+                if r != claim:
+                    bad.append((op, y, r))
+                    break
+        if bad:
+            op, y, r = bad[0]
+            expr = f"{known[1]} {op.lower()} {y}" if left_known else f"{y} {op.lower()} {known[1]}"
+            R.bad(key, f"the fold claims {claim} for operators {sorted(ops)} with one operand {known[1]} and the other unknown, but in RV32IM `{expr}` = {r} (and {len(bad)} operator(s) in all break the law: {sorted({b_[0] for b_ in bad})}): a value fact that is false whenever the unknown operand takes that value", loc(a))
+        else:
+            R.ok(key, detail=f"{known[1]} op y = {claim} for op in {sorted(ops)}: holds on the special values of every operator's definition", where=loc(a))
+
+
+@rule("C02", "C02.l.liveness-removes-only-what-the-node-writes", floor=4)
+def c02l(F, R):
+    """in every transfer function of the liveness pass the only registers removed from live_out[n] are the node's own kill set (`kill_reg()`), or the caller-saved class at an ecall: any further subtraction makes a register that a later instruction reads not live before a node that does not write it - the call-site branch also serves plain jumps and branches to function labels, which write nothing"""
+    from .p_parse import parent_map
+    f = _livepass_run(F)
+    body = f["hir"]["value"]
+    pm = parent_map(body)
+
+    def under_ecall(n):
+        x = n
+        while id(x) in pm:
+            par = pm[id(x)]
+            if par.get("k") == "If" and mentions_call(par["cond"], "is_ecall") and any(y is x for y in walk(par["then"], pats=False)):
+                return True
+            x = par
+        return False
+
+    def subtrahends(e, out):
+        e = peel(e)
+        if e.get("k") == "Binary" and e["op"] == "Sub":
+            subtrahends(e["a"], out)
+            out.append(e["b"])
+        elif e.get("k") == "Paren":
+            subtrahends(e["e"], out)
+        return out
+
+    n = 0
+    seen = set()
+    for e in walk(body, pats=False):
+        if e.get("k") == "Binary" and e["op"] == "Sub" and id(e) not in seen:
+            # outermost Sub of a chain
+            par = pm.get(id(e))
+            if par is not None and peel(par).get("k") == "Binary" and peel(par)["op"] == "Sub" and peel(par)["a"] is e:
+                continue
+            base = e
+            while peel(base).get("k") == "Binary" and peel(base)["op"] == "Sub":
+                seen.add(id(peel(base)))
+                base = peel(base)["a"]
+            if not mentions_call(base, "live_out"):
+                continue
+            for sub in subtrahends(e, []):
+                n += 1
+                names = [m.get("name") or short(callee_of(m) or "") for m in walk(sub, pats=False) if m.get("k") in ("MethodCall", "Call")]
+                key = f"sub#{n}|{'+'.join(names) or ekey(sub)[:30]}"
+                if names == ["kill_reg"]:
+                    R.ok(key, detail="live_out - kill[n]", where=loc(sub))
+                elif names and names[-1] == "caller_saved_set" and len(names) == 1 and under_ecall(e):
+                    R.ok(key, detail="an ecall clobbers the caller-saved class", where=loc(sub))
+                else:
+                    R.bad(key, f"the liveness pass removes `{ekey(sub)[:60]}` from live_out[n]: that is not the node's kill set - at a jump or branch to a function label (which the call-site branch also handles, and which writes no register) a register read later, e.g. the `ra` a tail-called function returns through, stops being live and the instruction that sets it is reported as an unused value", loc(sub))
+    for e in walk(body, pats=False):
+        if e.get("k") == "AssignOp" and e["op"] == "SubAssign":
+            n += 1
+            names = [m.get("name") or short(callee_of(m) or "") for m in walk(e["r"], pats=False) if m.get("k") in ("MethodCall", "Call")]
+            if names != ["kill_reg"]:
+                R.bad(f"subassign#{n}|{'+'.join(names)}", f"`{ekey(e)[:60]}` removes registers other than the node's kill set from a liveness set", loc(e))
+            else:
+                R.ok(f"subassign#{n}", detail="-= kill[n]")
 
 
 @rule("C13", "C13.g.zero-register-operands-fold-as-zero", floor=1)
